@@ -1759,7 +1759,7 @@ def c05(tier, replay=None):
     from .tlc import run_tlc, require_ok, write_cfg
     report = Report('C05', tier)
     recs = []
-    for edits, start in ([(2, 1), (2, 2), (2, 3)] if tier == 'quick' else [(3, 1), (3, 2), (3, 3)]):
+    for edits, start in ([(2, 1), (2, 2), (2, 3), (2, 4)] if tier == 'quick' else [(3, 1), (3, 2), (3, 3), (3, 4)]):
         cfg = write_cfg('MC_Hint_%d_%d.cfg' % (edits, start), '''
 SPECIFICATION Spec
 CONSTANTS
